@@ -41,15 +41,15 @@ CHECKS = {
     ),
     "C16": dict(
         ref="DESIGN.md 5.3",
-        text="Seeded search over histories: callers interleaved at operation boundaries parse entries of a pool of shared, mutually aliasing spec structures through every entry point (incl. Schema.from_yaml / from_yaml_file on YAML text with anchors), repeatedly; after every parse every spec's type-exact digest must be unchanged, the k-th parse must equal (==) and behave like the first, and both must equal parsing a fresh deep copy.",
+        text="Seeded search over histories: callers interleaved at operation boundaries parse entries of a pool of shared, mutually aliasing spec structures through every entry point (incl. Schema.from_yaml / from_yaml_file on YAML text with anchors), repeatedly; after every parse every spec's type-exact digest must be unchanged, the k-th parse must equal (==) and behave like the first, and both must equal parsing a fresh deep copy; the specs are compared once more after each result has been put to read-only use (validate/test/filter/get_data, to_tree, to_json_like, ...).",
         note="Trusts: the harness' type-exact snapshot; behaviour compared on probe documents only. Operation-boundary histories only.",
         technique="deterministic simulation: seeded operation-boundary interleaving of parse operations over shared aliasing spec structures; digest invariants + first-vs-kth-vs-fresh differential oracle",
     ),
     "C18": dict(
         ref="DESIGN.md 5.4",
-        text="Seeded search over histories: callers interleaved at operation boundaries issue add_schema (same T under several roots, into several S, chains) and validate; after every step every schema is compared structurally and behaviourally with an executable reference model (list of rule terms; add = append re-rooted + stable sort), T's digests must be unchanged and no Rule object may be shared unless the model says so.",
+        text="Seeded search over histories: callers interleaved at operation boundaries issue add_schema (same T under several roots, into several S, chains) and validate; after every step every schema is compared structurally and behaviourally with an executable reference model (list of rule terms; add = append re-rooted + stable sort), T's digests must be unchanged and no Rule object may be shared unless the model says so. Fault kind: add_schema calls the library refuses (root that is not a path) in 30 % of the histories; a refused call is a no-op in the model.",
         note="Trusts: the reference model's reading of 're-rooted' = root parts followed by the rule's parts, modifiers kept; behaviour compared on the world's documents. Operation-boundary histories only; never two writers on one S.",
-        technique="deterministic simulation: seeded operation-boundary interleaving of add_schema/validate over shared schemas; executable list-of-rules reference model checked after every step",
+        technique="deterministic simulation: seeded operation-boundary interleaving of add_schema/validate over shared schemas with injected refused calls; executable list-of-rules reference model checked after every step",
     ),
 }
 
